@@ -29,7 +29,7 @@ def sites():
                     if l.startswith("    }"):
                         in_fmt = False
                     continue
-                if "debug_assert" in l or "panic!" in l or "write!(" in l or "format!" in l:
+                if "debug_assert" in l or "panic!" in l or "write!(" in l or "format!" in l or "assert_eq!" in l or "assert!" in l:
                     continue
                 # statement deletion
                 if s.endswith("?;") and not s.startswith("let ") and "return" not in s:
@@ -52,11 +52,15 @@ def sites():
 
 
 def sh(cmd, timeout=1800, cwd=None):
+    import signal
+    p = subprocess.Popen(cmd, shell=True, stdout=subprocess.PIPE, stderr=subprocess.STDOUT, text=True, cwd=cwd, start_new_session=True)
     try:
-        r = subprocess.run(cmd, shell=True, capture_output=True, text=True, timeout=timeout, cwd=cwd)
-        return r.returncode, r.stdout + r.stderr
+        out, _ = p.communicate(timeout=timeout)
+        return p.returncode, out
     except subprocess.TimeoutExpired:
-        return 124, "timeout"
+        os.killpg(p.pid, signal.SIGKILL)
+        p.wait()
+        return 124, "VIOLATION (sweep) timeout: the check did not finish"
 
 
 def main():
@@ -87,7 +91,7 @@ def main():
         t0 = time.time()
         killed = None
         for c in ORDER:
-            rc, out = sh("./check %s --tier quick" % c, cwd="/verif", timeout=1800)
+            rc, out = sh("EV_RUN_TIMEOUT=240 ./check %s --tier quick" % c, cwd="/verif", timeout=1200)
             m = re.search(r"^VIOLATION.*$", out, re.M)
             if m:
                 killed = (c, "no-failing-input" in m.group(0))
